@@ -13,7 +13,7 @@ import core
 from ref import oracle
 
 GEN_FILES = ["GenCli.v", "GenConfig.v"]
-EXTRA_TARGETS = []
+EXTRA_TARGETS = ["Model/RoutesRun.vo"]
 AREAS = []
 
 RULE = (
@@ -225,7 +225,7 @@ def records(ctx):
         recs.append(draw(rng, set(OPTS)))
     for subset, aimed in AIMED:
         recs.append(draw(rng, subset, aimed))
-    for _ in range(12):
+    for _ in range(30):
         recs.append(draw(rng, {x for x in OPTS if rng.random() < 0.5}))
     return recs
 
@@ -267,7 +267,7 @@ def cli_groups(o, r, w):
             attach = style == "eq" or v.startswith("-")
             if attach and flag.startswith("--"):
                 groups.append((opt, [flag + "=" + v]))
-            elif attach and v:
+            elif attach and v and not v.startswith("="):     # argparse reads -c=v as the value v
                 groups.append((opt, [flag + v]))
             else:
                 groups.append((opt, [flag, v]))
@@ -401,7 +401,7 @@ def routes_for(ctx, o, idx):
                    "spelling": spell("random"), "extra": ["--prog", "0"] if rng.random() < 0.4 else None})
     for j, lopt in enumerate([x for x in LIST_OPTS if x in present]):
         others = [x for x in perm() if x != lopt]
-        variants = [True, False] if thorough else [(idx + j) % 2 == 0]
+        variants = [True, False] if thorough or len(present) <= 3 else [(idx + j) % 2 == 0]
         for last in variants:
             if last or not others:
                 order = others + [lopt]
@@ -567,13 +567,14 @@ def landing_errors(o, meta):
     top = {b"created by", b"creation date", b"info"} | ({b"announce", b"announce-list"} if "announce" in o else set()) \
         | ({b"url-list"} if "web-seed" in o else set()) | ({b"httpseeds"} if "http-seed" in o else set()) \
         | ({b"piece layers"} if v2 else set())
-    if set(meta) != top:
+    specific = len(errs)
+    if set(meta) != top and not specific:
         errs.append(("(top-level keys)", sorted(k.decode() for k in top), sorted(k.decode("utf-8", "replace") for k in meta)))
     ik = {b"name", b"piece length"} | ({b"pieces"} if v1 else set()) | ({b"file tree", b"meta version"} if v2 else set()) \
         | ({b"files"} if v1 and not single else set()) | ({b"length"} if single else set()) \
         | ({b"private"} if o.get("private") else set()) | ({b"source"} if o.get("source") else set()) \
         | ({b"comment"} if o.get("comment") else set())
-    if set(info) != ik:
+    if set(info) != ik and not specific:
         errs.append(("(info keys)", sorted(k.decode() for k in ik), sorted(k.decode("utf-8", "replace") for k in info)))
     # align: v1 multi-file only
     files = info.get(b"files")
@@ -892,8 +893,597 @@ def end_to_end(ctx):
 
 
 # ------------------------------------------------------------------------------------------------ PART 2 (tie)
+PREAMBLE = r'''
+From Coq Require Import String List Bool Ascii Arith.
+From TF Require Import Model.ArgParse Model.Routes Gen.GenCli Gen.GenConfig Model.RoutesRun.
+Import ListNotations.
+Open Scope string_scope.
+Fixpoint strs_eq (a b : list string) : bool :=
+  match a, b with [], [] => true | x :: r, y :: s => String.eqb x y && strs_eq r s | _, _ => false end.
+Fixpoint strss_eq (a b : list (list string)) : bool :=
+  match a, b with [], [] => true | x :: r, y :: s => strs_eq x y && strss_eq r s | _, _ => false end.
+Definition val_eq (a b : value) : bool :=
+  match a, b with
+  | VNone, VNone => true | VBool x, VBool y => Bool.eqb x y | VStr x, VStr y => String.eqb x y
+  | VInt x, VInt y => Nat.eqb x y | VList x, VList y => strs_eq x y | _, _ => false
+  end.
+Definition sub_ns (a b : namespace) : bool :=
+  forallb (fun kv => match lookup b (fst kv) with Some v => val_eq v (snd kv) | None => false end) a.
+(* equality of dictionaries (unique keys), insertion order ignored *)
+Definition ns_eq (a b : namespace) : bool := Nat.eqb (length a) (length b) && sub_ns a b && sub_ns b a.
+Fixpoint override (d ns : namespace) : namespace :=
+  match d with [] => ns | (k, v) :: r => override r (ArgParse.set k v ns) end.
+Record eparams := mk_e { e_path : string; e_ann : string; e_alist : list (list string); e_url : list string;
+  e_http : list string; e_comment : string; e_source : string; e_private : bool; e_outfile : string;
+  e_align : bool; e_hybrid : option bool }.
+Definition params_match (p : params) (e : eparams) : bool :=
+  String.eqb (p_path p) (e_path e) && String.eqb (p_announce p) (e_ann e) && strss_eq (p_announce_list p) (e_alist e)
+  && strs_eq (p_url_list p) (e_url e) && strs_eq (p_httpseeds p) (e_http e) && String.eqb (p_comment p) (e_comment e)
+  && String.eqb (p_source p) (e_source e) && Bool.eqb (p_private p) (e_private e) && String.eqb (p_outfile p) (e_outfile e)
+  && Bool.eqb (p_align p) (e_align e)
+  && match e_hybrid e with Some h => Bool.eqb (p_hybrid p) h | None => true end.
+Inductive item :=
+| IDefaults (e : namespace)
+| IParse (toks : list string) (exp : option namespace)
+| ICfg (pairs : list (string * string)) (toks : list string) (exp : option (string * namespace))
+| IInit (existing : list string) (ns : namespace) (exp : option eparams).
+'''
+
+CHECK_DEF = r'''
+Definition check (i : item) : bool :=
+  match i with
+  | IDefaults e => ns_eq (defaults create_args) e
+  | IParse toks exp =>
+      match run_parse toks, exp with
+      | PR_ok ns, Some d => ns_eq ns (override d real_defaults)
+      | PR_error, None => true
+      | _, _ => false
+      end
+  | ICfg pairs toks exp =>
+      match run_cfg pairs toks, exp with
+      | Some ns, Some (cls, e) => ns_eq ns e && String.eqb (run_dispatch ns) cls
+      | None, None => true
+      | _, _ => false
+      end
+  | IInit existing ns exp =>
+      match run_init existing ns, exp with
+      | IOk p, Some e => params_match p e
+      | IMissingPath, None => true
+      | _, _ => false
+      end
+  end.
+'''
+
+
+def cstr(s):
+    """Gallina string term for an ASCII str (newlines allowed); None if not expressible"""
+    parts = s.split("\n")
+    lits = [core.coq_string(p) for p in parts]
+    if any(x is None for x in lits):
+        return None
+    lits = [x[:-len("%string")] for x in lits]
+    term = lits[-1]
+    for x in reversed(lits[:-1]):
+        term = f"(append {x} (String nl {term}))"
+    return term
+
+
+def gval(v):
+    if v is None:
+        return "VNone"
+    if isinstance(v, bool):
+        return "(VBool true)" if v else "(VBool false)"
+    if isinstance(v, int):
+        return f"(VInt {v})"
+    if isinstance(v, str):
+        return f"(VStr {cstr(v)})"
+    if isinstance(v, list) and all(isinstance(x, str) for x in v):
+        return "(VList [" + "; ".join(cstr(x) for x in v) + "])"
+    raise ValueError(f"value outside the model: {v!r}")
+
+
+def gns(d):
+    return "[" + "; ".join(f"({cstr(k)}, {gval(v)})" for k, v in d.items()) + "]"
+
+
+def glist(l):
+    return "[" + "; ".join(cstr(x) for x in l) + "]"
+
+
+def real_parsers():
+    """build the parsers exactly as cli.execute does, without running a command"""
+    core.use_repo_in_process()
+    import torrentfile.cli as cli
+    made = []
+
+    class Rec(cli.ArgumentParser):
+        def __init__(self, *a, **k):
+            super().__init__(*a, **k)
+            made.append(self)
+
+    class Shim:
+        def __getattr__(self, name):
+            return lambda args: args
+    saved = cli.ArgumentParser, cli.commands
+    cli.ArgumentParser, cli.commands = Rec, Shim()
+    try:
+        ns = cli.execute(["create"])
+    finally:
+        cli.ArgumentParser, cli.commands = saved
+    # the parser reached through the word `create`
+    top = made[0]
+    sub_action = next(a for a in top._actions if a.dest == "command")
+    cmap = sub_action._name_parser_map
+    return top, cmap, vars(ns)
+
+
+def quiet_call(fn, *a, **k):
+    import io
+    import contextlib
+    sink = io.StringIO()
+    with contextlib.redirect_stdout(sink), contextlib.redirect_stderr(sink):
+        return fn(*a, **k)
+
+
+def real_parse(parser, toks):
+    try:
+        ns = quiet_call(parser.parse_args, list(toks))
+    except SystemExit:
+        return None
+    d = dict(vars(ns))
+    d.pop("func", None)
+    return d
+
+
+def lit_default(v):
+    if v is None:
+        return "VNone"
+    if isinstance(v, bool):
+        return "(VBool true)" if v else "(VBool false)"
+    if isinstance(v, int):
+        return f"(VInt {v})"
+    if isinstance(v, str):
+        return '(VStr "%s")' % v.replace('"', '""')
+    if isinstance(v, list):
+        return "(VList [" + "; ".join('"%s"' % x.replace('"', '""') for x in v) + "])"
+    return f"<unmodelled {v!r}>"
+
+
+REC_RE = re.compile(r'\{\|\s*a_flags := \[(.*?)\];\s*a_dest := "(.*?)";\s*a_action := (\w+);\s*a_nargs := (\w+);\s*'
+                    r'a_default := (.*?);\s*a_const := (.*?);\s*a_choices := (.*?);\s*a_positional := (\w+)\s*\|\}', re.S)
+
+
+def table_vs_introspection(ctx, cmap):
+    """(iii) the text of Gen/GenCli.v and Gen/GenConfig.v against the live parser / signature"""
+    import argparse
+    import inspect
+    text = open(os.path.join(core.GEN, "GenCli.v"), encoding="utf-8").read()
+    recs = []
+    for m in REC_RE.finditer(text):
+        flags = [x.replace('""', '"') for x in re.findall(r'"((?:[^"]|"")*)"', m.group(1))]
+        recs.append({"flags": flags, "dest": m.group(2), "action": m.group(3), "nargs": m.group(4),
+                     "default": " ".join(m.group(5).split()), "const": m.group(6).strip(),
+                     "choices": " ".join(m.group(7).split()), "positional": m.group(8) == "true"})
+    parser = cmap["create"]
+    real = []
+    for a in parser._actions:
+        if isinstance(a, argparse._HelpAction):
+            continue
+        cls = type(a).__name__
+        action = {"_StoreAction": "ActStore", "_StoreTrueAction": "ActStoreTrue"}.get(cls, "<" + cls + ">")
+        nargs = "NNone" if (a.nargs is None or (cls == "_StoreTrueAction" and a.nargs == 0)) else \
+            {"+": "NPlus", "?": "NOpt", "*": "NStar"}.get(a.nargs, f"<{a.nargs!r}>")
+        choices = "None" if a.choices is None else "(Some [" + "; ".join('"%s"' % c for c in a.choices) + "])"
+        real.append({"flags": list(a.option_strings) or [a.dest], "dest": a.dest, "action": action, "nargs": nargs,
+                     "default": lit_default(a.default), "const": "None" if cls != "_StoreAction" or a.const is None else repr(a.const),
+                     "choices": choices, "positional": not a.option_strings, "required": bool(a.required)})
+    n = 0
+    if len(recs) != len(real):
+        ctx.disagree("GenCli.create_args vs parser._actions: number of arguments", {"file": "Gen/GenCli.v"},
+                     [r["dest"] for r in recs], [r["dest"] for r in real])
+    for g, r in zip(recs, real):
+        n += 1
+        req = r.pop("required")
+        if g != r or req:
+            ctx.disagree("GenCli.create_args vs parser._actions", {"dest": r["dest"]}, g, dict(r, required=req))
+        ctx.case(key=("table", r["dest"]), classes=["tie: generated argument record vs parser._actions"])
+    # aliases and the function the sub-command runs
+    m = re.search(r"Definition create_aliases : list string := \[(.*?)\]\.", text, re.S)
+    gal = re.findall(r'"((?:[^"]|"")*)"', m.group(1)) if m else None
+    ral = sorted(k for k, v in cmap.items() if v is parser and k != "create")
+    if gal is None or sorted(gal) != ral:
+        ctx.disagree("GenCli.create_aliases vs the sub-parser map", {}, gal, ral)
+    fn = parser.get_default("func")
+    m = re.search(r'Definition create_func : string := "(.*?)"\.', text)
+    # (the shim replaced torrentfile.commands while the parser was built: read the name from the source-level default)
+    import torrentfile.commands as commands
+    if not m or not hasattr(commands, m.group(1).split(".")[-1]) or m.group(1).split(".")[0] != "commands":
+        ctx.disagree("GenCli.create_func vs commands", {}, m.group(1) if m else None, "commands.create")
+    del fn
+    # MetaFile.__init__ signature
+    ctext = open(os.path.join(core.GEN, "GenConfig.v"), encoding="utf-8").read()
+    from torrentfile import torrent
+    sig = inspect.signature(torrent.MetaFile.__init__)
+    ps = [p for p in sig.parameters.values() if p.name != "self"]
+    named = [p for p in ps if p.kind == p.POSITIONAL_OR_KEYWORD]
+    want = "[" + "; ".join('("%s", %s)' % (p.name, lit_default(p.default)) for p in named) + "]"
+    m = re.search(r"Definition init_params_sig : list \(string \* value\) :=\s*(\[.*?\])\.\n", ctext, re.S)
+    got = " ".join(m.group(1).split()) if m else None
+    if got != want:
+        ctx.disagree("GenConfig.init_params_sig vs inspect.signature(MetaFile.__init__)", {}, got, want)
+    m = re.search(r"Definition init_varkw : bool := (\w+)\.", ctext)
+    if not m or (m.group(1) == "true") != any(p.kind == p.VAR_KEYWORD for p in ps):
+        ctx.disagree("GenConfig.init_varkw vs inspect.signature(MetaFile.__init__)", {}, m.group(1) if m else None,
+                     any(p.kind == p.VAR_KEYWORD for p in ps))
+    ctx.case(key=("table", "init signature"), classes=["tie: generated signature vs inspect.signature"])
+    ctx.traces_validated += n + 1
+    return real
+
+
+TOK_VALUES = ["x", "two words", "", "14", "http://t.example/a?b=c", "v%20w", "true", "new"]
+TOK_URLS = ["http://t.example/announce", "udp://[2001:db8::1]:6969/a", "https://w.example/p%20q/", "u3"]
+
+
+def parse_cases(ctx, parser):
+    """(i) argv token lists: every subset of <= 2 option groups with all orders and content positions, samples of 3 and 4"""
+    import argparse
+    rng = ctx.rng
+    acts = [a for a in parser._actions if a.option_strings and not isinstance(a, argparse._HelpAction)]
+
+    def group(a):
+        flag = rng.choice(a.option_strings)
+        if a.nargs == 0:
+            return [flag]
+        if a.nargs is None:
+            if a.choices:
+                return [flag, rng.choice(list(a.choices) + (["4"] if rng.random() < 0.15 else []))]
+            return [flag, rng.choice(TOK_VALUES)]
+        return [flag] + rng.sample(TOK_URLS, rng.choice([1, 2, 3]))
+    cases = []
+
+    def expand(subset, classes):
+        groups = [group(a) for a in subset]
+        for perm in itertools.permutations(range(len(groups))):
+            gs = [groups[i] for i in perm]
+            for pos in list(range(len(gs) + 1)) + [None]:
+                toks = [t for g in gs[:pos if pos is not None else len(gs)] for t in g] + (["C"] if pos is not None else []) \
+                    + ([t for g in gs[pos:] for t in g] if pos is not None else [])
+                cases.append((toks, classes))
+    thorough = ctx.tier == "thorough"
+    expand([], ["tie argv: 0 flags"])
+    for a in acts:
+        for _ in range(3):
+            expand([a], ["tie argv: 1 flag"])
+    for s in itertools.combinations(acts, 2):
+        expand(list(s), ["tie argv: 2 flags"])
+    c3 = list(itertools.combinations(acts, 3))
+    c4 = list(itertools.combinations(acts, 4))
+    for s in (c3 if thorough else rng.sample(c3, 110)):
+        expand(list(s), ["tie argv: 3 flags"])
+    for s in rng.sample(c4, 220 if thorough else 22):
+        expand(list(s), ["tie argv: 4 flags"])
+    # duplicates, errors, edge tokens
+    extra = [["--comment"], ["-a"], ["-a", "--private"], ["--web-seed", "--http-seed", "h"], ["C", "D"], ["C", "-p", "D"],
+             ["-a", "u", "C", "-p", "D"], ["--meta-version", "4"], ["--meta-version", "2", "--meta-version", "3"],
+             ["-a", "u1", "-a", "u2", "u3"], ["-p", "-p"], ["--web-seed", "w", "C", "--http-seed", "h", "D"],
+             ["", "-p"], ["-c", ""], ["-c", "", ""], ["--tracker", "", "C"], ["-o", "a", "--out", "b", "C"],
+             ["--prog", "0", "--progress", "2"], ["C", "--config", "--config-path", "p.ini"], ["--config-path"],
+             ["-s", "x", "-s"], ["--align", "C", "--align"], ["--http-seed", "C"], ["-a", "C"]]
+    for t in extra:
+        cases.append((t, ["tie argv: duplicates / errors / empty tokens"]))
+    for _ in range(300 if thorough else 60):
+        sub = rng.sample(acts, rng.choice([1, 2, 3]))
+        gs = [group(a) for a in sub] + [group(rng.choice(sub))]
+        rng.shuffle(gs)
+        pos = rng.randrange(0, len(gs) + 1)
+        cases.append(([t for g in gs[:pos] for t in g] + ["C"] + [t for g in gs[pos:] for t in g],
+                      ["tie argv: duplicates / errors / empty tokens"]))
+    return cases
+
+
+CFG_KEYS = ["announce", "web-seed", "http-seed", "private", "source", "comment", "piece-length", "meta-version", "out", "align",
+            "tracker", "cwd", "magnet", "progress", "url-list", "url_list", "httpseeds", "outfile", "content", "path", "foo",
+            "meta_version", "piece_length"]
+CFG_VALUES = ["true", "True", "TRUE", "false", "yes", "1", "", "plain", "two words", "100% pure", "%(x)s", "a#b ;c", "k=v",
+              "3", "2", "14", "http://t.example/a%20b", "u1\nu2", "u1\n\nu2\nu3", "x: y"]
+
+
+def cfg_cases(ctx, tmp):
+    """(ii) (pairs, ini path, argv) -- the ini holds exactly the pairs"""
+    import configparser
+    rng = ctx.rng
+    out = []
+    n = 260 if ctx.tier == "thorough" else 70
+    single = [[(k, v)] for k in CFG_KEYS[:14] for v in ("true", "u1\nu2", "3")]
+    rnd = []
+    for _ in range(n):
+        ks = rng.sample(CFG_KEYS, rng.choice([1, 2, 3, 5]))
+        rnd.append([(k, rng.choice(CFG_VALUES)) for k in ks])
+    for i, pairs in enumerate(single + rnd):
+        case = rng.choice(["lower", "lower", "upper", "title"])
+        raw = [((k.upper() if case == "upper" else k.title() if case == "title" else k),
+                (os.path.join(tmp, "o", re.sub(r"[^A-Za-z0-9 %=#;]", "_", v) or "e") if k in ("out", "outfile") else v))
+               for k, v in pairs]
+        ini = os.path.join(tmp, f"c{i}.ini")
+        with open(ini, "w", encoding="utf-8") as fd:
+            fd.write("[config]\n" + "".join(f"{k} = " + v.replace("\n", "\n    ") + "\n" for k, v in raw))
+        cp = configparser.ConfigParser(interpolation=None)
+        cp.read(ini)
+        back = list(cp["config"].items())          # what config["config"].items() delivers, minus interpolation
+        # the model receives the keys as written (it lower-cases them itself) and the values as ConfigParser delivers them
+        mpairs = [(rk, bv) for (rk, _), (_, bv) in zip(raw, back)]
+        argv = ["--config", "--config-path", ini]
+        if rng.random() < 0.5:
+            argv += rng.choice([["-p"], ["--comment", "cli"], ["--meta-version", "2"], ["-a", "cliurl"], ["--web-seed", "cw"]])
+        argv += ["C"]
+        out.append((mpairs, argv))
+    return out
+
+
+class _Stop(Exception):
+    pass
+
+
+def capture_create(commands, ns):
+    """run commands.create up to the construction of the torrent object; returns ('ok', class, kwargs) | ('exc', name)"""
+    got = {}
+
+    def mk(name):
+        def ctor(**kw):
+            got["cls"], got["kwargs"] = name, dict(kw)
+            raise _Stop()
+        return ctor
+    saved = commands.TorrentFile, commands.TorrentAssembler
+    commands.TorrentFile, commands.TorrentAssembler = mk("TorrentFile"), mk("TorrentAssembler")
+    try:
+        try:
+            quiet_call(commands.create, ns)
+        except _Stop:
+            pass
+        except Exception as e:  # noqa
+            return ("exc", type(e).__name__ + ": " + str(e)[:80])
+    finally:
+        commands.TorrentFile, commands.TorrentAssembler = saved
+    if "cls" not in got:
+        return ("exc", "no torrent object was constructed")
+    return ("ok", got["cls"], got["kwargs"])
+
+
+def init_cases(ctx, parser, content, urlfile):
+    """(iv) keyword dictionaries for MetaFile.__init__: parsed swallow argv and hand-made keyword sets"""
+    rng = ctx.rng
+    cases = []
+    n = 400 if ctx.tier == "thorough" else 110
+    flagsets = [["-a"], ["--web-seed"], ["--http-seed"], ["-a", "--web-seed"], ["-a", "--http-seed"],
+                ["--web-seed", "--http-seed"], ["-a", "--web-seed", "--http-seed"]]
+    for i in range(n):
+        fl = list(flagsets[i % len(flagsets)])
+        rng.shuffle(fl)
+        groups = []
+        for f in fl:
+            k = rng.choice([0, 1, 1, 2]) if f == "-a" else rng.choice([1, 2])
+            groups.append([f] + rng.sample(TOK_URLS, k) + ([urlfile] if rng.random() < 0.08 else []))
+        groups = [g for g in groups if len(g) > 1 or rng.random() < 0.5]
+        sc = rng.choice(["after-list", "after-list", "first", "absent", "missing-file", "after-scalar"])
+        others = rng.sample([["-p"], ["--comment", "c c"], ["--source", "S"], ["--meta-version", rng.choice("123")],
+                             ["-o", "o.torrent"], ["--align"], ["--piece-length", "15"]], rng.choice([0, 1, 2]))
+        seq = groups + others
+        rng.shuffle(seq)
+        c = content if sc != "missing-file" else content + ".gone"
+        toks = [t for g in seq for t in g]
+        if sc in ("after-list", "missing-file") and groups:
+            gi = seq.index(rng.choice(groups))
+            toks = [t for g in seq[:gi + 1] for t in g] + [c] + [t for g in seq[gi + 1:] for t in g]
+        elif sc == "first":
+            toks = [c] + toks
+        elif sc == "after-scalar":
+            toks = ["--source", "S2", c] + toks
+        d = real_parse(parser, toks)
+        if d is not None:
+            cases.append((d, {"argv": toks, "scenario": sc}))
+    kw = [
+        {"path": content, "announce": "http://single.example/a"}, {"content": content, "announce": ["u1", "u2"]},
+        {"path": content, "content": content + ".gone", "piece_length": "15"}, {"announce": ["u1", content]}, {"announce": [content]},
+        {"announce": [content], "url_list": ["w", content]}, {"url_list": [content]}, {"httpseeds": ["h", content]},
+        {"announce": "", "path": content}, {"path": content, "private": True, "align": True, "meta_version": 3},
+        {"path": content, "meta_version": "3"}, {"path": content, "meta_version": 2}, {"path": content, "comment": "", "source": ""},
+        {}, {"announce": ["u1", "u2"]}, {"path": "", "content": "", "httpseeds": [content]},
+        {"path": content, "outfile": "x.torrent", "url_list": [], "httpseeds": []},
+    ]
+    for k in kw:
+        cases.append((k, {"keywords": k}))
+    return cases
+
+
+def strings_in(d):
+    for v in d.values():
+        if isinstance(v, str):
+            yield v
+        elif isinstance(v, list):
+            for x in v:
+                if isinstance(x, str):
+                    yield x
+
+
+def coq_show(term):
+    """value of a term of the instantiated model (for the disagreement report)"""
+    import tempfile
+    d = tempfile.mkdtemp(prefix="vshow_")
+    try:
+        with open(os.path.join(d, "show.v"), "w", encoding="utf-8") as fd:
+            fd.write(PREAMBLE + f"\nEval vm_compute in ({term}).\n")
+        p = subprocess.run(["timeout", "120", "coqc", "-Q", core.COQ, "TF", "show.v"], cwd=d, capture_output=True, text=True)
+        return " ".join((p.stdout or p.stderr).split())[:700]
+    finally:
+        shutil.rmtree(d, ignore_errors=True)
+
+
 def tie(ctx, model_ok):
-    ctx.notes.append("PART 2 (tie of GenCli.v / GenConfig.v to the running parser) not wired yet")
+    gen_ok = all(os.path.exists(os.path.join(core.GEN, f)) and "translator_refused" not in
+                 open(os.path.join(core.GEN, f), encoding="utf-8").read() for f in GEN_FILES)
+    if not gen_ok:
+        ctx.notes.append("PART 2 skipped: Gen/GenCli.v or Gen/GenConfig.v missing or refused by the translator")
+        return
+    top, cmap, exec_ns = real_parsers()
+    parser = cmap["create"]
+    table_vs_introspection(ctx, cmap)
+    vo = os.path.join(core.COQ, "Model", "RoutesRun.vo")
+    if not model_ok:
+        # the property's own closure did not build (recorded as broken by the build phase): the instantiated model may still do
+        with core.Lock("pipeline"):
+            ok, _ = core.make(["Model/RoutesRun.vo"])
+        if not ok or not os.path.exists(vo):
+            ctx.notes.append("PART 2 (i), (ii), (iv) skipped: Model/RoutesRun.vo does not build")
+            return
+    from torrentfile import commands, torrent, utils
+    real_defaults = real_parse(parser, [])
+    items, meta = [], []
+    items.append(f"IDefaults {gns(real_defaults)}")
+    meta.append(("defaults of the create sub-parser", {"argv": []}, real_defaults, "defaults create_args"))
+    ctx.case(key=("tie", "defaults"), classes=["tie: defaults"])
+    # (i)
+    for toks, classes in parse_cases(ctx, parser):
+        d = real_parse(parser, toks)
+        if d is None:
+            exp = "None"
+            cl = classes + ["tie argv: argparse error"]
+        else:
+            diff = {k: v for k, v in d.items() if real_defaults.get(k, object()) != v or k not in real_defaults}
+            exp = f"(Some {gns(diff)})"
+            cl = classes + (["tie argv: content swallowed"] if d.get("content") is None and "C" in toks else [])
+        items.append(f"IParse {glist(toks)} {exp}")
+        meta.append(("Model/ArgParse.v on GenCli.create_args vs parser.parse_args", {"argv": toks}, d, f"run_parse {glist(toks)}"))
+        ctx.case(key=("argv", tuple(toks)), classes=cl)
+    # the way cli.execute reaches the sub-parser: `create`, the alias, the implicit sub-command
+    for word in sorted(cmap):
+        if cmap[word] is parser:
+            for toks in (["C", "-p"], ["-a", "u", "C"]):
+                d = real_parse(top, [word] + toks)
+                sub = real_parse(parser, toks)
+                if d is None or {k: v for k, v in d.items() if k in sub} != sub:
+                    ctx.disagree("top-level parser + sub-command word vs the create sub-parser", {"argv": [word] + toks}, sub, d)
+    with core.Scratch("vc20t_") as tmp:
+        os.makedirs(os.path.join(tmp, "o"))
+        content = os.path.join(tmp, "C")
+        os.makedirs(content)
+        with open(os.path.join(content, "f.bin"), "wb") as fd:
+            fd.write(pbytes(20000, 3))
+        urlfile = os.path.join(tmp, "url-that-exists")
+        with open(urlfile, "w") as fd:
+            fd.write("x")
+        cwd = os.getcwd()
+        os.chdir(tmp)
+        try:
+            # (ii)
+            for pairs, argv in cfg_cases(ctx, tmp):
+                argv = [content if t == "C" else t for t in argv]
+                ns = quiet_call(parser.parse_args, list(argv))
+                r = capture_create(commands, ns)
+                if r[0] == "ok":
+                    kw = dict(r[2])
+                    kw.pop("func", None)
+                    try:
+                        exp = f"(Some ({cstr(r[1])}, {gns(kw)}))"
+                    except ValueError as e:
+                        ctx.notes.append(f"cfg case left out: {e}")
+                        continue
+                elif "nterpolation" in r[1] or "%" in r[1]:
+                    exp = "None"
+                else:
+                    ctx.notes.append(f"cfg case left out: commands.create raised {r[1]}")
+                    continue
+                if any(cstr(k) is None or cstr(v) is None for k, v in pairs):
+                    continue
+                gp = "[" + "; ".join(f"({cstr(k)}, {cstr(v)})" for k, v in pairs) + "]"
+                items.append(f"ICfg {gp} {glist(argv)} {exp}")
+                meta.append(("GenConfig.cfg_route (apply_cfg, dispatch) vs commands.create / parse_config_file",
+                             {"pairs": pairs, "argv": argv}, r[1:] if r[0] == "ok" else r, f"run_cfg {gp} {glist(argv)}"))
+                keys = {k.lower() for k, _ in pairs}
+                ctx.case(key=("cfg", json.dumps(pairs), tuple(argv[3:])),
+                         classes=["tie cfg: documented key" if keys & set(OPTS) else "tie cfg: undocumented key only"]
+                         + (["tie cfg: undocumented key"] if keys - set(OPTS) else [])
+                         + (["tie cfg: key case variant"] if any(k != k.lower() for k, _ in pairs) else [])
+                         + (["tie cfg: value with %"] if any("%" in v for _, v in pairs) else [])
+                         + (["tie cfg: multi-line value"] if any("\n" in v for _, v in pairs) else [])
+                         + (["tie cfg: command-line flag next to the file"] if len(argv) > 4 else []))
+            # (iv)
+            for kw, desc in init_cases(ctx, parser, content, urlfile):
+                existing = sorted({s for s in strings_in(kw) if s and os.path.exists(s)})
+                cache = getattr(utils.filelist_total, "cache", None)
+                if cache is not None:
+                    cache.clear()
+                try:
+                    mf = quiet_call(torrent.MetaFile, **kw)
+                except utils.MissingPathError:
+                    mf = None
+                except Exception as e:  # noqa
+                    ctx.notes.append(f"init case left out ({type(e).__name__}): {desc}")
+                    continue
+                if mf is None:
+                    exp, shown = "None", "MissingPathError"
+                else:
+                    hyb = "None"
+                    if str(kw.get("meta_version")) in ("2", "3") and os.path.exists(str(mf.path)):
+                        try:
+                            asm = quiet_call(torrent.TorrentAssembler, **dict(kw, progress=0))
+                            hyb = "(Some true)" if asm.hybrid else "(Some false)"
+                        except Exception as e:  # noqa
+                            ctx.notes.append(f"TorrentAssembler raised {type(e).__name__} on {desc}")
+                    al = mf.announce_list
+                    shown = {"path": mf.path, "announce": mf.announce, "announce_list": al, "url-list": mf.meta.get("url-list", []),
+                             "httpseeds": mf.meta.get("httpseeds", []), "comment": mf.comment, "source": mf.source,
+                             "private": bool(mf.private), "outfile": mf.outfile, "align": bool(mf.align), "hybrid": hyb}
+                    try:
+                        exp = ("(Some (mk_e %s %s [%s] %s %s %s %s %s %s %s %s))" % (
+                            cstr(str(mf.path)), cstr(mf.announce), "; ".join(glist(list(t)) for t in al),
+                            glist(list(mf.meta.get("url-list", []))), glist(list(mf.meta.get("httpseeds", []))),
+                            cstr(mf.comment or ""), cstr(mf.source or ""), "true" if mf.private else "false",
+                            cstr(mf.outfile or ""), "true" if mf.align else "false", hyb))
+                    except (TypeError, AttributeError):
+                        ctx.notes.append(f"init case left out (attribute types): {desc}")
+                        continue
+                try:
+                    g = gns(kw)
+                except ValueError:
+                    continue
+                items.append(f"IInit {glist(existing)} {g} {exp}")
+                meta.append(("Model/Routes.v init_params (path recovery, announce shape, landings) vs MetaFile.__init__",
+                             desc, shown, f"run_init {glist(existing)} {g}"))
+                cl = ["tie init: " + desc.get("scenario", "keywords")]
+                if mf is None:
+                    cl.append("tie init: MissingPathError")
+                elif "content" in kw and not kw.get("content") and not kw.get("path"):
+                    cl.append("tie init: path recovered from " + next((k for k in ("announce", "url_list", "httpseeds")
+                                                                       if kw.get(k) and mf.path in kw[k]), "?"))
+                if len(existing) > 1:
+                    cl.append("tie init: a URL names an existing file")
+                ctx.case(key=("init", json.dumps(core.jsonable(desc), sort_keys=True)), classes=cl)
+        finally:
+            os.chdir(cwd)
+    pre = PREAMBLE + f"\nDefinition real_defaults : namespace := {gns(real_defaults)}.\n" + CHECK_DEF
+    t0 = time.time()
+    bad, err = core.coq_eval_failing(pre, items, "check", shard=700, jobs=12)
+    ctx.extra["tie_items"] = len(items)
+    ctx.extra["tie_coq_seconds"] = round(time.time() - t0, 1)
+    if err:
+        ctx.broken.append("tie evaluation failed: " + err[-900:])
+    else:
+        ctx.traces_validated += len(items)
+    for n, i in enumerate(bad):
+        what, inp, impl, term = meta[i]
+        model = coq_show(term) if n < 3 else "(differs; evaluate `" + term[:300] + "`)"
+        ctx.disagree(what, inp, model, core.jsonable(impl))
+    require_classes(ctx, TIE_REQUIRED)
+
+
+TIE_REQUIRED = ["tie: generated argument record vs parser._actions", "tie argv: 0 flags", "tie argv: 1 flag", "tie argv: 2 flags",
+                "tie argv: 3 flags", "tie argv: 4 flags", "tie argv: argparse error", "tie argv: content swallowed",
+                "tie argv: duplicates / errors / empty tokens", "tie cfg: documented key", "tie cfg: undocumented key",
+                "tie cfg: key case variant", "tie cfg: value with %", "tie cfg: multi-line value",
+                "tie cfg: command-line flag next to the file", "tie init: after-list", "tie init: first", "tie init: absent",
+                "tie init: missing-file", "tie init: keywords", "tie init: MissingPathError",
+                "tie init: path recovered from announce", "tie init: path recovered from url_list",
+                "tie init: path recovered from httpseeds", "tie init: a URL names an existing file"]
 
 
 def run(ctx, model_ok):
